@@ -160,7 +160,7 @@ func c07prop(ev *evid.Rec) func(rt *rapid.T) {
 				return sfld(hlref.FFileName, s), h, fmt.Sprintf("%q", s)
 			}
 			for i := 0; i < nreq; i++ {
-				kind := rapid.SampledFrom([]string{"list", "info", "comment", "rename", "delete", "move", "newfolder", "alias", "download", "upload", "folder-download", "folder-upload",
+				kind := rapid.SampledFrom([]string{"list", "info", "comment", "rename", "delete", "move", "newfolder", "alias", "alias-then-move", "download", "upload", "folder-download", "folder-upload",
 					"new-user", "set-user", "update-create", "update-rename", "update-delete", "delete-user", "get-user", "login"}).Draw(rt, fmt.Sprintf("kind%d", i))
 				L := func(s string) string { return fmt.Sprintf("%s%d", s, i) }
 				fileReq := true
@@ -254,6 +254,19 @@ func c07prop(ev *evid.Rec) func(rt *rapid.T) {
 						r := request(hlref.TranUploadFldr, append(fs, fld(hlref.FTransferSize, hlref.BE32(100)), fld(hlref.FFolderItemCount, hlref.BE16(n)))...)
 						if ref, ok := r.Get(hlref.FRefNum); okReply(r) && ok {
 							_, _ = w.FolderUpload("10.7.1.1:9", ref, items)
+						}
+					}
+				case "alias-then-move":
+					// two well-formed requests and a use: an alias of a file one level down is made in another folder, then moved
+					// up to the root; wherever it ends up it still names something inside the root
+					rq.desc = "alias of dir/inner.txt made in other, then moved to the root, then downloaded"
+					request(hlref.TranMakeFileAlias, sfld(hlref.FFileName, "inner.txt"), fld(hlref.FFilePath, p1("dir")), fld(hlref.FFileNewPath, p1("other")))
+					request(hlref.TranMoveFile, sfld(hlref.FFileName, "inner.txt"), fld(hlref.FFilePath, p1("other")))
+					request(hlref.TranGetFileNameList)
+					if r := request(hlref.TranDownloadFile, sfld(hlref.FFileName, "inner.txt")); r != nil {
+						if ref, ok := r.Get(hlref.FRefNum); okReply(r) && ok {
+							rx, _ := w.Transfer("10.7.1.1:9", ref, 0, nil, -1)
+							note(rx)
 						}
 					}
 				case "move", "alias":
